@@ -107,7 +107,11 @@ def scn_metrics(ctx):
         ctx.check("exec_total", G("exec_total", t, "m") == 1, G("exec_total", t, "m"))
     if "retry" in types:
         rex = ex
-        ctx.check("retry_queue-matches-structure", G("retry_queue", "m") == len(rex._jobs), "gauge %s, len(_jobs) %d" % (G("retry_queue", "m"), len(rex._jobs)))
+        jobs = getattr(rex, "_jobs", None)
+        if jobs is not None:  # white-box anchor; absent after a refactoring => only the API-level comparison below
+            ctx.check("retry_queue-matches-structure", G("retry_queue", "m") == len(jobs), "gauge %s, len(_jobs) %d" % (G("retry_queue", "m"), len(jobs)))
+        else:
+            ctx.reach("anchor-absent")
         pending = sum(1 for f in own if not f.done())
         if not do_shutdown:
             ctx.check("retry_queue-matches-pending", G("retry_queue", "m") == pending, "gauge %s, unfinished retry futures %d" % (G("retry_queue", "m"), pending))
@@ -123,8 +127,15 @@ def scn_metrics(ctx):
             ctx.check("retry_total", G("retry_total", "m") == resub, "counter %s, re-submissions %d" % (G("retry_total", "m"), resub))
             ctx.reach("retry-metrics-checked")
     if "throttle" in types:
-        tex = ex if kind == "throttle" else ex._delegate
-        ctx.check("throttle_queue-matches-structure", G("throttle_queue", "m") == len(tex._to_submit), "gauge %s, len(queue) %d" % (G("throttle_queue", "m"), len(tex._to_submit)))
+        tex = ex if kind == "throttle" else getattr(ex, "_delegate", None)
+        queue = getattr(tex, "_to_submit", None)
+        # harness-level count: futures of the throttle layer that are neither done nor handed to the delegate
+        if queue is not None:
+            ctx.check("throttle_queue-matches-structure", G("throttle_queue", "m") == len(queue), "gauge %s, len(queue) %d" % (G("throttle_queue", "m"), len(queue)))
+        else:
+            ctx.reach("anchor-absent")
+        if kind == "throttle" and not do_shutdown:
+            ctx.check("throttle_queue-empty-at-quiescence", G("throttle_queue", "m") == 0, "gauge %s although every future is finished" % G("throttle_queue", "m"))
         ctx.reach("throttle-metrics-checked")
     if kind == "poll":
         ctx.check("poll_total", G("poll_total", "m") == npolls[0], "counter %s, poll calls %d" % (G("poll_total", "m"), npolls[0]))
